@@ -844,9 +844,14 @@ class _SimpleParameterizedType(_ParameterizedType):
         buf.write(pack(len(items)))
         inner_proto = max(3, protocol_version)
         for item in items:
-            itembytes = subtype.to_binary(item, inner_proto)
-            buf.write(pack(len(itembytes)))
-            buf.write(itembytes)
+            if item is None:
+                # a null element is written with length -1, as in tuples and UDTs
+                # (protocol v1/v2 length fields are unsigned: pack raises)
+                buf.write(pack(-1))
+            else:
+                itembytes = subtype.to_binary(item, inner_proto)
+                buf.write(pack(len(itembytes)))
+                buf.write(itembytes)
         return buf.getvalue()
 
 
@@ -914,12 +919,14 @@ class MapType(_ParameterizedType):
             raise TypeError("Got a non-map object for a map value")
         inner_proto = max(3, protocol_version)
         for key, val in items:
-            keybytes = key_type.to_binary(key, inner_proto)
-            valbytes = value_type.to_binary(val, inner_proto)
-            buf.write(pack(len(keybytes)))
-            buf.write(keybytes)
-            buf.write(pack(len(valbytes)))
-            buf.write(valbytes)
+            for subtype, item in ((key_type, key), (value_type, val)):
+                if item is None:
+                    # null is length -1 (see _SimpleParameterizedType.serialize_safe)
+                    buf.write(pack(-1))
+                else:
+                    itembytes = subtype.to_binary(item, inner_proto)
+                    buf.write(pack(len(itembytes)))
+                    buf.write(itembytes)
         return buf.getvalue()
 
 
